@@ -230,6 +230,20 @@ struct Runner
       std::cout << "grow " << nodes[pnode].cap << " ";
       ++g_stats["grows"];
       if (nodes[pnode].cap > max_cap) { oracle("allocated-beyond-max cap=" + std::to_string(nodes[pnode].cap)); }
+      // C02 "when growing would exceed the maximum the reservation fails": a reservation that does not fit is answered
+      // by a LARGER buffer or not at all (a buffer of the same or a smaller size is only ever created by shrink());
+      // chaining same-size buffers is an unbounded backlog under another name
+      uint64_t const old_cap = nodes[before].cap;
+      if (nodes[pnode].cap <= old_cap)
+      {
+        oracle("grow-allocated-no-larger-buffer from=" + std::to_string(old_cap) + " to=" + std::to_string(nodes[pnode].cap) +
+               " max=" + std::to_string(max_cap) + " n=" + std::to_string(n));
+      }
+      else if (2 * old_cap > max_cap)
+      {
+        oracle("allocated-although-growing-exceeds-max from=" + std::to_string(old_cap) + " to=" +
+               std::to_string(nodes[pnode].cap) + " max=" + std::to_string(max_cap) + " n=" + std::to_string(n));
+      }
     }
     if (!p)
     {
